@@ -611,6 +611,8 @@ func (fc *FnCtx) havocFrame(s *State, fr *Frame, old map[string]*Term) {
 				nv := fc.fresh("hv_"+key, es)
 				s.heap[key] = mkStore(fc.heapCur(s, key, srt), f.Addr, nv)
 			}
+			// the new field value is still a value of the field's type
+			s.assume(fc.typeAssume(fc.loadFieldIn(s.heap, f.SName, fl, f.Addr), nil, nil))
 		}
 	}
 	if fr.AllMem {
